@@ -515,3 +515,110 @@ def c09(tier):
     out += ["{ RddV = sizeof(RsV); }", "{ RddV = sizeof(RssV); }", "{ RddV = sizeof(PuV); }", "{ RddV = sizeof(RsV + RttV); }",
             "{ RddV = sizeof(1LL); }", "{ RddV = sizeof(1); }", "{ RddV = sizeof(RsV) - 5; }", "{ RddV = (sizeof(RsV) > -1); }"]
     return out
+
+
+# ------------------------------------------------------------------------------------------ C15
+C15_CARRIERS = [
+    "{ int32_t n = RsV; RxV = n; @S@ RyV = RyV + n; }",
+    "{ int32_t n = RsV; for (i = 0; i < 3; i++) { RxV = RxV + i; @S@ RyV = RyV * 2; } }",
+    "{ int32_t n = RsV; if (n > 0) { RxV = 1; @S@ RyV = 2; } else { RyV = 3; } }",
+    "{ int32_t n = RsV; for (i = 0; i < 2; i++) { if (RtV & 1) { @S@ } RxV = RxV + 1; } RyV = n; }",
+]
+C15_STMTS = [
+    "break;", "continue;", "goto out;", "out: RxV = 5;", "return;",
+    "RxV = 1, RyV = 2;", "n = (RxV = 3, 4);", "RxV = (n++, n);",
+    "while (n > 0) { n = n - 1; }", "while (0) { RxV = 9; }", "do { n = n - 1; } while (n > 0);", "do { RxV = 9; } while (0);",
+    "switch (n) { case 1: RxV = 1; break; default: RxV = 2; }", "switch (n) { default: RxV = 2; }",
+    "foo();", "foo(n);", "RxV = foo(n);", "RxV = foo();", "fBARRIER();", "n = bar(1, 2) + 1;",
+    "*p = 3;", "RxV = *p;", "RxV = &n;", "a[0] = n;", "RxV = a[1];", "RxV = a[n] + 1;", "s.f = 1;", "RxV = s.f;", "RxV = p->f;",
+    "p->f = n;", "++n;", "--n;", "RxV = ++n;", "RxV = --n + 1;",
+    "for (;;) { RxV = 1; }", "for (i = 0; ; i++) { RxV = 1; }", "for (i = 0, j = 0; i < 2; i++) { RxV = j; }",
+    "for (i = 0; i < 2; i++, j++) { RxV = j; }", "RxV = clz32((n, 3));", "RxV = n ? (RyV = 1, 2) : 3;",
+    "int q = 1, r = 2;", "int arr[2];", "int *ptr;", "typedef int t;", "static int z = 1;",
+    "RxV = (int32_t){n};", "RxV = sizeof(int[2]);", "asm(\"nop\");", "RxV = n ?: 3;", "RxV = __builtin_clz(n);",
+    "if (n) break;", "if (n) { continue; }", "{ break; }", "RxV = \"str\";", "RxV = 'c';", "RxV = 1.5;", "RxV = 010;",
+    "RxV = 1L;", "RxV = 1UL;", "RxV = n >>> 1;", "RxV = n <=> 1;", "RxV = (n, n);",
+]
+
+
+def c15(tier):
+    out = []
+    for car in C15_CARRIERS:
+        for s_ in C15_STMTS:
+            out.append(car.replace("@S@", s_))
+    # expression positions
+    for e in ["(RxV = 3, 4)", "foo(n)", "foo()", "*p", "a[1]", "s.f", "p->f", "++n", "(n, 3)", "&n"]:
+        out.append(f"{{ int32_t n = RsV; RyV = {e} + 1; }}")
+        out.append(f"{{ int32_t n = RsV; if ({e}) {{ RyV = 1; }} }}")
+        out.append(f"{{ int32_t n = RsV; RyV = clz32({e}); }}")
+        out.append(f"{{ int32_t n = RsV; mem_store_u32(RtV, {e}); }}")
+        out.append(f"{{ int32_t n = RsV; RyV = (RtV > 0) ? {e} : 2; }}")
+        out.append(f"{{ int32_t n = RsV; for (i = 0; i < {e}; i++) {{ RyV = RyV + 1; }} }}")
+    return out
+
+
+# ------------------------------------------------------------------------------------------ C17
+C17_BIN = ["*", "+", "-", "<<", ">>", "<", ">", "<=", ">=", "==", "!=", "&", "^", "|", "&&", "||"]
+
+
+def c17(tier):
+    out = []
+    d = "uint8_t a = RsV; int16_t b = RtV; uint32_t c = RuV;"
+    for o1, o2 in itertools.product(C17_BIN, C17_BIN):
+        out.append(f"{{ {d} RddV = a {o1} b {o2} c; }}")
+    for o1, o2, o3 in [("+", "*", "-"), ("<<", "+", ">>"), ("&", "==", "|"), ("||", "&&", "|"), ("<", "<<", "+"), ("^", "&", "=="),
+                       ("-", "-", "-"), ("*", "+", "*"), (">>", ">>", "<<"), ("==", "<", "!=")]:
+        out.append(f"{{ {d} int32_t e = RvV; RddV = a {o1} b {o2} c {o3} e; }}")
+    un = ["-", "~", "!"]
+    for u, o in itertools.product(un, C17_BIN):
+        out.append(f"{{ {d} RddV = a {o} {u}b; }}")
+        out.append(f"{{ {d} RddV = {u}a {o} b; }}")
+        out.append(f"{{ {d} RddV = {u}a {o} {u}b; }}")
+    for u1, u2 in itertools.product(un, un):
+        out.append(f"{{ {d} RddV = {u1}{u2}b; }}")
+        out.append(f"{{ {d} RddV = {u1} {u2} a + c; }}")
+    out += [f"{{ {d} RddV = a & b && c; }}", f"{{ {d} RddV = a && b & c; }}", f"{{ {d} RddV = a & -b; }}", f"{{ {d} RddV = a - -b; }}",
+            f"{{ {d} RddV = a - - b; }}", f"{{ {d} RddV = a & ~b & c; }}", f"{{ {d} RddV = a && !b || c; }}",
+            f"{{ {d} RddV = a || b && c || a; }}", f"{{ {d} RddV = !a == b; }}", f"{{ {d} RddV = ~a >> b; }}",
+            f"{{ {d} RddV = -a * b; }}", f"{{ {d} RddV = a * -b; }}"]
+    # cast vs parenthesised expression
+    for t in TNAME:
+        out.append(f"{{ {d} RddV = ({t})a + b; }}")
+        out.append(f"{{ {d} RddV = ({t})-a; }}")
+        out.append(f"{{ {d} RddV = ({t})~b >> 2; }}")
+        out.append(f"{{ {d} RddV = ({t})(a + b) * c; }}")
+        out.append(f"{{ {d} RddV = -({t})b; }}")
+        out.append(f"{{ {d} RddV = ({t})a << 12; }}")
+        out.append(f"{{ {d} RddV = (a) + ({t})(b) - (c); }}")
+        out.append(f"{{ {d} RddV = ({t})({t})b; }}")
+    out += [f"{{ {d} RddV = (a) + b; }}", f"{{ {d} RddV = (a) - b; }}", f"{{ {d} RddV = (a) & b; }}", f"{{ {d} RddV = (a) * b; }}",
+            f"{{ {d} RddV = (a) - (b) - (c); }}", f"{{ {d} RddV = ((a)) + ((b) * (c)); }}", f"{{ {d} RddV = (a + b) * c; }}",
+            f"{{ {d} RddV = a + (b * c); }}", f"{{ {d} RddV = (((a)))+(((((b))))); }}"]
+    # ?: nesting and right associativity, assignment right associativity
+    out += [f"{{ {d} RddV = a ? b : c ? 1 : 2; }}", f"{{ {d} RddV = a ? b ? 1 : 2 : c; }}", f"{{ {d} RddV = a ? b : c + 1; }}",
+            f"{{ {d} RddV = a + 1 ? b : c; }}", f"{{ {d} RddV = a || b ? c : 3; }}", f"{{ {d} RddV = a ? b : c || 3; }}",
+            f"{{ {d} RddV = a < b ? a : b; }}", f"{{ {d} RddV = (a ? b : c) ? 1 : 2; }}", f"{{ {d} RddV = a ? (b ? 1 : 2) : (c ? 3 : 4); }}",
+            f"{{ {d} RddV = a ? 1 : b ? 2 : c ? 3 : 4; }}", f"{{ {d} RxV = RyV = a + 1; }}", f"{{ {d} int32_t q; RxV = q = RyV = b; }}",
+            f"{{ {d} RxV = a; RxV += RyV = 3; }}", f"{{ {d} RxV = a ? b : c; RyV = RxV; }}"]
+    # else binding and statement nesting
+    out += ["{ if (RsV) if (RtV) RxV = 1; else RxV = 2; }", "{ if (RsV) { if (RtV) RxV = 1; } else RxV = 2; }",
+            "{ if (RsV) { if (RtV) RxV = 1; else RxV = 2; } }", "{ if (RsV) if (RtV) RxV = 1; else RxV = 2; else RxV = 3; }",
+            "{ if (RsV) RxV = 1; else if (RtV) RxV = 2; else RxV = 3; }", "{ if (RsV) for (i = 0; i < 2; i++) if (RtV) RxV = RxV + 1; else RyV = RyV + 1; }",
+            "{ for (i = 0; i < 2; i++) if (RsV) RxV = RxV + 1; else RyV = RyV + 1; RzV = i; }",
+            "{ for (i = 0; i < 2; i++) for (j = 0; j < 2; j++) RxV = RxV * 3 + i + j; RyV = RxV; }",
+            "{ if (RsV) ; else RxV = 1; }", "{ if (RsV) {} else RxV = 1; RyV = 2; }", "{ if (RsV) RxV = 1; RyV = 2; }",
+            "{ { RxV = 1; } { RyV = 2; } }", "{ {{ RxV = 1; }} RyV = RxV; }", "{ RxV = 1; { RyV = RxV; { RzV = RyV; } } }",
+            "{ RxV = ({ RyV = 3; RyV + 1; }); }", "{ RxV = ({ int32_t q = RsV; q * 2; }) + ({ int32_t r = RtV; r * 3; }); }",
+            "{ { RyV = 3; RyV = RyV + 1; } RxV = RyV; }", "{ RxV = ({ RyV = 3; RyV; }); { RzV = RxV; } }"]
+    # token classification: register / .new / explicit / alias / immediate / identifier look-alikes
+    look = ["RsVx", "siVal", "P4", "R32", "RsW", "Rs", "sV", "RssVV", "xRsV", "HEX_REG_ALIAS", "HEX_REG_ALIAS_", "riv", "RIV",
+            "R0x", "P0_NEWS", "NsNx", "EAx", "ii", "RsV_", "_RsV", "MuVV", "CsVx", "uiV2", "iV"]
+    for l in look:
+        out.append(f"{{ int32_t {l} = RtV; RxV = {l} + 1; }}")
+        out.append(f"{{ RxV = {l}; }}")
+    out += ["{ RxV = RsV+RtV; }", "{ RxV=RsV-RtV; }", "{ RxV = RsV+siV; }", "{ RxV = RsV +uiV-RtV; }", "{ RxV = RsN+PtV; }",
+            "{ RxV = P0+P1; }", "{ RxV = HEX_REG_ALIAS_SP+4; }", "{ RxV=RsV&RtV; }", "{ RxV=RsV&&RtV; }", "{ RxV=RsV&~RtV; }",
+            "{ RxV=RsV<<RtV; }", "{ RxV=RsV<RtV; }", "{ RxV=RsV<=RtV; }", "{ RxV=RsV<<1<=RtV; }", "{ RxV=RsV>>1>=RtV; }",
+            "{ RxV=RsV>RtV>>1; }", "{ RxV = RsV --- RtV; }" if False else "{ RxV = RsV - - - RtV; }", "{ RxV = RsV++ + RtV; }",
+            "{ RxV = RsV+ +RtV; }", "{ RxV = 0x10+RsV; }", "{ RxV = 0x1f&RsV; }", "{ RxV = 10U+RsV; }", "{ RxV = 1LL<<RsV; }"]
+    return out
